@@ -168,11 +168,21 @@ def run_inherit(case):
 
 
 def cases(rng, tier):
-    return S.gen_cases(rng, tier, 90 if tier == "quick" else 1200) + S.default_cases(random.Random(str(rng.getstate()[1][0])), tier, 150 if tier == "quick" else 2500) + S.crosstype_cases() + S.hook_cases(random.Random("hook" + str(rng.getstate()[1][0])), tier, 120 if tier == "quick" else 2000) + inherit_cases(rng, 150 if tier == "quick" else 3000)
+    base = S.gen_cases(rng, tier, 90 if tier == "quick" else 1200) + S.default_cases(random.Random(str(rng.getstate()[1][0])), tier, 150 if tier == "quick" else 2500) + S.crosstype_cases() + S.hook_cases(random.Random("hook" + str(rng.getstate()[1][0])), tier, 120 if tier == "quick" else 2000) + inherit_cases(rng, 150 if tier == "quick" else 3000)
+    # the extension field kinds (SizedString, IPV4, HostName, DateString, TimeString, JSONString) inside the modelled region:
+    # the same type-directed streams with the extended declaration generator, and the directed pools
+    ext = S.gen_cases(random.Random("ext" + str(rng.getstate()[1][0])), tier, 70 if tier == "quick" else 1000, ext=True, prefix="E") + S.xstring_cases()
+    # arguments that are the library's own typed wrappers, read from a laxly declared field of another instance
+    tp = S.transplant_cases(random.Random("tp" + str(rng.getstate()[1][0])), tier, 60 if tier == "quick" else 800)
+    # DecimalNumber (Sem/Decimal.lean): bare, Array items, Map values
+    dec = S.decimal_cases(random.Random("dec" + str(rng.getstate()[1][0])), tier, 40 if tier == "quick" else 500)
+    return base + ext + tp + dec
 
 
 def search_cases(rng, tier):
-    return S.gen_cases(rng, "thorough", 400) + inherit_cases(rng, 500)
+    return S.gen_cases(rng, "thorough", 400) + inherit_cases(rng, 500) + S.gen_cases(random.Random("ext-s" + str(rng.getstate()[1][0])), "thorough", 200, ext=True, prefix="E") \
+        + S.transplant_cases(random.Random("tp-s" + str(rng.getstate()[1][0])), "thorough", 150) \
+        + S.decimal_cases(random.Random("dec-s" + str(rng.getstate()[1][0])), "thorough", 100)
 
 
 def _i(case):
@@ -210,8 +220,11 @@ def judge(case, impl, model):
         if impl.get("out") == "raised" and not impl.get("documented_exc"):
             fails.append((f"error-class:inherited:{case['entry']}:{impl['exc']}", f"{case['entry']} raised {impl['exc']}: {impl.get('msg')}"))
         return None, fails
+    if model is None:
+        return None, []          # no model line (NaN / Infinity given to a DecimalNumber): C02 judges the error class
+    dev = S.deviation_findings(case, impl, "ill-formed-instance", None)        # the library's bare formatted-string field vs the documented language
     msg = S.correspondence(case, impl, model) or S.chain_correspondence(case, impl, model)
-    fails = []
+    fails = list(dev)
     if "unbuildable" in impl or "abstraction_mismatch" in impl:
         return msg, fails
     kind = S.top_kind(case)
